@@ -90,14 +90,15 @@ def inst_model(cs):
     hops = cs.get("hops", 0)
     hd = "".join("const int h%d = %s + %d; " % (k + 1, "N" if k == 0 else "h%d" % k, k % 2) for k in range(hops))
     top_name = "N" if hops == 0 else "h%d" % hops
-    ta = {"name": "TA", "params": "const int[1,2] N", "locations": [{"id": "id0"}], "init": "id0", "decl": hd + ({"size": "int a[%s];", "upper": "int a[int[0,%s]];", "lower": "int a[int[%s,5]];"}[cs.get("dim", "size")] % top_name if use == "arrsize" else ""),
+    lead = cs.get("lead", 0)
+    ta = {"name": "TA", "params": ("const int[0,1] a0, " if lead else "") + "const int[1,2] N", "locations": [{"id": "id0"}], "init": "id0", "decl": hd + ({"size": "int a[%s];", "upper": "int a[int[0,%s]];", "lower": "int a[int[%s,5]];"}[cs.get("dim", "size")] % top_name if use == "arrsize" else ""),
           "edges": [{"src": "id0", "dst": "id0", "guard": "%s > 0" % top_name}] if use == "guard" else []}
     sysl, top = [], "TA"
     for k in range(cs["passes"]):
-        sysl.append("P%d(const int[1,2] q%d) = %s(q%d);" % (k + 1, k + 1, top, k + 1)); top = "P%d" % (k + 1)
+        sysl.append("P%d(const int[1,2] q%d) = %s(%sq%d);" % (k + 1, k + 1, top, "0, " if (lead and k == 0) else "", k + 1)); top = "P%d" % (k + 1)
     if cs["end"] != "free":
         arg = {"lit": "1", "const": "cc1", "mut": "m"}[cs["end"]]
-        sysl.append("PE = %s(%s);" % (top, arg)); top = "PE"
+        sysl.append("PE = %s(%s%s);" % (top, "0, " if (lead and cs["passes"] == 0) else "", arg)); top = "PE"
     sysl.append("system %s;" % top)
     return {"decl": "const int cc1 = 1; int m = 1;", "templates": [ta], "system": "\n".join(sysl)}
 
@@ -149,7 +150,7 @@ def run(tier):
             raise vf.MachineryError("instantiation model failed: %s" % json.dumps(r)[:800])
         msgs = [e["msg"] for e in r["dump"]["doc"]["errors"]]
         accepted = not msgs
-        key = "inst:%d:%s:%s:hops%d:%s" % (cs["passes"], cs["end"], cs["use"], cs.get("hops", 0), cs.get("dim", "size"))
+        key = "inst:%d:%s:%s:hops%d:%s:lead%d" % (cs["passes"], cs["end"], cs["use"], cs.get("hops", 0), cs.get("dim", "size"), cs.get("lead", 0))
         rep = {"kind": "inst", "case": cs, "model": inst_model(cs), "diagnostics": msgs}
         if not cs["accepted"]:
             nontrivial += 1
